@@ -1288,6 +1288,13 @@ let shift_ok width0 cnt =
 let notu bits v =
   Z.sub (Z.sub (Z.pow (Zpos (XO XH)) bits) (Zpos XH)) v
 
+(** val obind : 'a1 option -> ('a1 -> 'a2 option) -> 'a2 option **)
+
+let obind o f =
+  match o with
+  | Some a -> f a
+  | None -> None
+
 (** val guard : bool -> 'a1 option -> 'a1 option **)
 
 let guard ok k =
@@ -1557,35 +1564,29 @@ let lrtr_get_bits_gen v_val v_from v_number =
             wrapu (Zpos (XO (XO (XO (XO (XO XH))))))
               (Z.sub (Z.opp Z0) (Zpos XH))
           in
-          if negb
-               (Z.eqb (wraps (Zpos (XO (XO (XO (XO (XO XH)))))) v_number)
-                 (Zpos (XO (XO (XO (XO (XO XH)))))))
-          then guard
-                 (shift_ok (Zpos (XO (XO (XO (XO (XO XH))))))
-                   (wraps (Zpos (XO (XO (XO (XO (XO XH)))))) v_number))
-                 (let v_mask0 =
-                    notu (Zpos (XO (XO (XO (XO (XO XH))))))
-                      (Z.shiftr v_mask
-                        (wraps (Zpos (XO (XO (XO (XO (XO XH)))))) v_number))
-                  in
-                  guard
+          obind
+            (if negb
+                  (Z.eqb (wraps (Zpos (XO (XO (XO (XO (XO XH)))))) v_number)
+                    (Zpos (XO (XO (XO (XO (XO XH)))))))
+             then guard
                     (shift_ok (Zpos (XO (XO (XO (XO (XO XH))))))
-                      (wraps (Zpos (XO (XO (XO (XO (XO XH)))))) v_from))
-                    (let v_mask1 =
-                       wrapu (Zpos (XO (XO (XO (XO (XO XH))))))
-                         (Z.shiftr v_mask0
-                           (wraps (Zpos (XO (XO (XO (XO (XO XH)))))) v_from))
+                      (wraps (Zpos (XO (XO (XO (XO (XO XH)))))) v_number))
+                    (let v_mask0 =
+                       notu (Zpos (XO (XO (XO (XO (XO XH))))))
+                         (Z.shiftr v_mask
+                           (wraps (Zpos (XO (XO (XO (XO (XO XH)))))) v_number))
                      in
-                     Some (Z.coq_land v_mask1 v_val)))
-          else guard
-                 (shift_ok (Zpos (XO (XO (XO (XO (XO XH))))))
-                   (wraps (Zpos (XO (XO (XO (XO (XO XH)))))) v_from))
-                 (let v_mask0 =
-                    wrapu (Zpos (XO (XO (XO (XO (XO XH))))))
-                      (Z.shiftr v_mask
-                        (wraps (Zpos (XO (XO (XO (XO (XO XH)))))) v_from))
-                  in
-                  Some (Z.coq_land v_mask0 v_val)))
+                     Some v_mask0)
+             else Some v_mask) (fun v_mask0 ->
+            guard
+              (shift_ok (Zpos (XO (XO (XO (XO (XO XH))))))
+                (wraps (Zpos (XO (XO (XO (XO (XO XH)))))) v_from))
+              (let v_mask1 =
+                 wrapu (Zpos (XO (XO (XO (XO (XO XH))))))
+                   (Z.shiftr v_mask0
+                     (wraps (Zpos (XO (XO (XO (XO (XO XH)))))) v_from))
+               in
+               Some (Z.coq_land v_mask1 v_val))))
 
 (** val hz_zero_code : bool **)
 
